@@ -40,6 +40,7 @@ type C06Case struct {
 	ScaleK    int    `json:"scale_k,omitempty"`
 	ScaleSep  string `json:"scale_sep,omitempty"`
 	ScalePre  string `json:"scale_pre,omitempty"`
+	ScalePost string `json:"scale_post,omitempty"` // text after the repeated units; in a unit, %a stands for the unit's index written in letters (A, B, ... AA)
 }
 
 func (c *C06Case) content() string {
@@ -288,9 +289,31 @@ func minCPU(reps int, f func()) time.Duration {
 	return best
 }
 
+func alphaIndex(i int) string {
+	s := ""
+	for {
+		s = string(rune('A'+i%26)) + s
+		i = i/26 - 1
+		if i < 0 {
+			return s
+		}
+	}
+}
+
 func c06ScaleCheck(c *C06Case) []ev.Discrepancy {
 	build := func(k int) string {
-		return c.ScalePre + strings.TrimSuffix(strings.Repeat(c.ScaleUnit+c.ScaleSep, k), c.ScaleSep) + "\n"
+		if strings.Contains(c.ScaleUnit, "%a") {
+			var sb strings.Builder
+			sb.WriteString(c.ScalePre)
+			for i := 0; i < k; i++ {
+				if i > 0 {
+					sb.WriteString(c.ScaleSep)
+				}
+				sb.WriteString(strings.ReplaceAll(c.ScaleUnit, "%a", alphaIndex(i)))
+			}
+			return sb.String() + c.ScalePost + "\n"
+		}
+		return c.ScalePre + strings.TrimSuffix(strings.Repeat(c.ScaleUnit+c.ScaleSep, k), c.ScaleSep) + c.ScalePost + "\n"
 	}
 	small, big := build(c.ScaleK), build(4*c.ScaleK)
 	work := func(text string) func() {
@@ -306,6 +329,13 @@ func c06ScaleCheck(c *C06Case) []ev.Discrepancy {
 			_, _ = h.S.SemanticTokensFull(ctx, &protocol.SemanticTokensParams{TextDocument: tdi(c06URI)})
 			_, _ = h.S.Hover(ctx, &protocol.HoverParams{TextDocumentPositionParams: tdpp(c06URI, refclient.Pos{Line: 0, Char: 5})})
 			_, _ = h.S.Completion(ctx, &protocol.CompletionParams{TextDocumentPositionParams: tdpp(c06URI, refclient.Pos{Line: 0, Char: 5})})
+			_, _ = h.S.FoldingRanges(ctx, &protocol.FoldingRangeParams{TextDocumentPositionParams: tdpp(c06URI, refclient.Pos{})})
+			_, _ = h.S.DocumentSymbol(ctx, &protocol.DocumentSymbolParams{TextDocument: tdi(c06URI)})
+			// completion at the end of the last line (everything typed before the cursor is the query)
+			last := strings.Count(text, "\n") - 1
+			if last >= 0 {
+				_, _ = h.S.Completion(ctx, &protocol.CompletionParams{TextDocumentPositionParams: tdpp(c06URI, refclient.Pos{Line: last, Char: 1 << 30})})
+			}
 			_ = h.Close(c06URI)
 		}
 	}
@@ -509,10 +539,18 @@ func TestC06(t *testing.T) {
 	})
 }
 
-var c06ScaleUnits = []struct{ unit, sep, pre string }{
-	{"A1", " ", ""}, {"a:b", " ", "    "}, {"x", "", ""}, {"2024-01-01 x\n    a:b  1 EUR\n    c:d", "\n", ""}, {"; k:v", ", ", ""}, {"1", " ", "    a:b  "},
-	{"\"", "", ""}, {"(", "", "    "}, {"account a:b", "\n", ""}, {"é", " ", ""}, {"@", " ", "    a:b  1 "}, {"=", "", ""}, {"    a:b  1 EUR", "\n", "2024-01-01 x\n"},
-	{"include x.journal", "\n", ""}, {"k:v", ",", "2024-01-01 x ;"}, {"1,000.00 EUR", " ", "    a:b  "}, {"[a:b]", " ", "    "}, {"|", " ", "2024-01-01 "},
+var c06ScaleUnits = []struct{ unit, sep, pre, post string }{
+	{"A1", " ", "", ""}, {"a:b", " ", "    ", ""}, {"x", "", "", ""}, {"2024-01-01 x\n    a:b  1 EUR\n    c:d", "\n", "", ""}, {"; k:v", ", ", "", ""}, {"1", " ", "    a:b  ", ""},
+	{"\"", "", "", ""}, {"(", "", "    ", ""}, {"account a:b", "\n", "", ""}, {"é", " ", "", ""}, {"@", " ", "    a:b  1 ", ""}, {"=", "", "", ""}, {"    a:b  1 EUR", "\n", "2024-01-01 x\n", ""},
+	{"include x.journal", "\n", "", ""}, {"k:v", ",", "2024-01-01 x ;", ""}, {"1,000.00 EUR", " ", "    a:b  ", ""}, {"[a:b]", " ", "    ", ""}, {"|", " ", "2024-01-01 ", ""},
+	// shapes pointed out by an independent review of the unchanged code
+	{"(", "", "    ", ":a"},                                                             // every "(" looks ahead for the colon of a virtual account
+	{"1", "", "commodity 1,000.00 USD\n2024-01-01 x\n    a:b  ", " USD\n    c:d"},     // one very long number, written with group marks
+	{"account d:%a\n2024-01-01 x\n    u:%a  1 EUR\n    v:%a", "\n", "", ""},          // many declared accounts x many postings to undeclared ones
+	{" P ", "\n", "", ""},                                                               // indented lines that look like directives (folding)
+	{"a :1", ",", "2024-01-01 x ; ", ""},                                                 // comment pieces that are almost tags
+	{"    a:b  1 %a", "\n", "2024-01-01 x\n", ""},                                      // one transaction out of balance in many commodities
+	{"account acc:%a", "\n", "", "\n2024-01-01 x\n    " + strings.Repeat("q", 4000)}, // many candidates x a long line before the cursor
 }
 
 // TestC06Scale: the cost of a unit repeated 4k times must stay within x10 of k times.
@@ -532,7 +570,7 @@ func TestC06Scale(t *testing.T) {
 			for (len(u.unit)+len(u.sep))*4*kk > 65000 {
 				kk /= 2
 			}
-			c := &C06Case{ScaleUnit: u.unit, ScaleSep: u.sep, ScalePre: u.pre, ScaleK: kk, Preview: u.pre + u.unit + u.sep + "..."}
+			c := &C06Case{ScaleUnit: u.unit, ScaleSep: u.sep, ScalePre: u.pre, ScalePost: u.post, ScaleK: kk, Preview: u.pre + u.unit + u.sep + "..." + u.post}
 			ds := c06ScaleCheck(c)
 			recC06.Case(true, mustJSON(c), "scaling")
 			if len(ds) > 0 {
